@@ -216,7 +216,7 @@ func emit(c *hx.Ctx, kind string, maxConn, maxReq uint32, ops, obs []string, w *
 }
 
 // gen picks the next op: mostly valid and progress-making, weighted towards leases, completions and faults.
-func gen(c *hx.Ctx, length int) func(w *world, step int) string {
+func gen(c *hx.Ctx, rng *hx.Rng, length int) func(w *world, step int) string {
 	return func(w *world, step int) string {
 		if step >= length {
 			return ""
@@ -261,7 +261,7 @@ func gen(c *hx.Ctx, length int) func(w *world, step int) string {
 		for _, x := range cs {
 			tot += x.wt
 		}
-		r := c.Rng.Intn(tot)
+		r := rng.Intn(tot)
 		for _, x := range cs {
 			if r < x.wt {
 				return x.op
@@ -353,17 +353,19 @@ func Run(c *hx.Ctx) {
 			}
 		}
 	}
-	// seeded random histories
+	// seeded random histories. hx.NewRng(k+1) is hx.NewRng(k) advanced by one draw, so neighbouring seeds would
+	// replay the same histories once their draw positions re-align: fork a well-mixed generator first.
+	rng := c.Rng.Fork()
 	n := c.N(260, 2200)
 	for i := 0; i < n; i++ {
-		k := kinds[c.Rng.Intn(2)]
-		mc := uint32(c.Rng.Intn(3))
-		mr := uint32(c.Rng.Intn(3))
-		if c.Rng.Chance(8) {
-			mc = uint32(3 + c.Rng.Intn(2))
+		k := kinds[rng.Intn(2)]
+		mc := uint32(rng.Intn(3))
+		mr := uint32(rng.Intn(3))
+		if rng.Chance(8) {
+			mc = uint32(3 + rng.Intn(2))
 		}
-		length := 3 + c.Rng.Intn(10)
-		ops, obs, w := runOps(c, k, mc, mr, gen(c, length))
+		length := 3 + rng.Intn(10)
+		ops, obs, w := runOps(c, k, mc, mr, gen(c, rng, length))
 		emit(c, k, mc, mr, ops, obs, w)
 	}
 }
